@@ -3,6 +3,8 @@ import random, copy
 from common import S, Sempty, Stext, Q, M, sc_py
 
 STR_KEYS = ['a', 'b', 'c', 'k', 'x', '_u', 'a', 'b', 'c', 'k', 'x', 'stages', 'x.y', 'my-key']
+ODD_KEYS = ['x.y', 'my-key', 'k 1', 'a[0]', 'stages', '_u']
+P_ODD = 0.0     # extra probability of a key that is not a plain identifier (set by property modules)
 INT_KEYS = [0, 1, 2, -1, 3]
 SCALARS = [0, 1, 2, 7, -3, 'p', 'q', '', 'hello world', True, False, None, 1.5, 0.0, 'p', 'q', 1, "f'{b}'", 'true', '12']
 
@@ -73,7 +75,7 @@ def gen_items(rng, voc, depth, p_tag, nmax=3):
     keys = []
     pool = STR_KEYS + (INT_KEYS if voc.intkeys and rng.random() < 0.15 else [])
     while len(keys) < n:
-        k = rng.choice(pool)
+        k = rng.choice(ODD_KEYS) if rng.random() < P_ODD else rng.choice(pool)
         if k not in keys:
             keys.append(k)
     return [(k, gen_value(rng, voc, depth, p_tag)) for k in keys]
@@ -111,9 +113,12 @@ def gen_override(rng, voc, base, depth=3, p_tag=0.3):
                 cur[k] = nxt
             cur = nxt
         cur[path[-1]] = {'__leaf__': val}
+    lens = {p: len(n['q']) for p, n in paths_of(base) if 'q' in n}
     for _ in range(rng.choice([1, 1, 2, 3])):
         if ps and rng.random() < 0.8:
             p = rng.choice(ps)
+            # address list elements by the negative spelling of the same index now and then
+            p = tuple((k - lens[p[:i]]) if (isinstance(k, int) and p[:i] in lens and rng.random() < 0.3) else k for i, k in enumerate(p))
             if rng.random() < 0.2:
                 p = p + (rng.choice(STR_KEYS + [0, 5]),)
         else:
